@@ -108,7 +108,7 @@ func CorruptJSON(t *rapid.T, text []byte, n int, protect map[string]bool) ([]byt
 			break
 		}
 		p := paths[rapid.IntRange(0, len(paths)-1).Draw(t, "node")]
-		kind := rapid.IntRange(0, 6).Draw(t, "corruption")
+		kind := rapid.IntRange(0, 8).Draw(t, "corruption")
 		switch {
 		case kind <= 2:
 			h := rapid.SampledFrom(hostileNodes).Draw(t, "hostile")
@@ -162,6 +162,22 @@ func CorruptJSON(t *rapid.T, text []byte, n int, protect map[string]bool) ([]byt
 				return []interface{}{x}, false
 			})
 			desc = append(desc, "dup/swap")
+		case kind >= 7:
+			// a number becomes a degenerate number of the other kind: fractions that
+			// truncate to zero, negative zero, values beyond int64
+			var nums []jsonPath
+			for _, q := range paths {
+				if _, ok := nodeAt(tree, q).(json.Number); ok {
+					nums = append(nums, q)
+				}
+			}
+			if len(nums) == 0 {
+				continue
+			}
+			q := nums[rapid.IntRange(0, len(nums)-1).Draw(t, "numnode")]
+			num := rapid.SampledFrom([]string{"0.5", "-0.25", "1e-9", "0.0", "-0.0", "0.9999999999999999", "1e-400", "0", "2.5", "1e19", "-1e19"}).Draw(t, "degenerate")
+			tree, _ = rewrite(tree, q, func(x interface{}) (interface{}, bool) { return json.Number(num), false })
+			desc = append(desc, "degenerate-number:"+num)
 		default:
 			num := rapid.SampledFrom([]string{"0", "-0", "1e308", "-9223372036854775808", "9223372036854775807", "0.1", "1e-400", "18446744073709551616"}).Draw(t, "num")
 			tree, _ = rewrite(tree, p, func(x interface{}) (interface{}, bool) { return json.Number(num), false })
@@ -173,6 +189,29 @@ func CorruptJSON(t *rapid.T, text []byte, n int, protect map[string]bool) ([]byt
 		return text, []string{"unserialisable"}
 	}
 	return out, desc
+}
+
+// nodeAt returns the node at path (nil if absent).
+func nodeAt(x interface{}, path jsonPath) interface{} {
+	for _, e := range path {
+		switch v := x.(type) {
+		case map[string]interface{}:
+			k, ok := e.(string)
+			if !ok {
+				return nil
+			}
+			x = v[k]
+		case []interface{}:
+			i, ok := e.(int)
+			if !ok || i < 0 || i >= len(v) {
+				return nil
+			}
+			x = v[i]
+		default:
+			return nil
+		}
+	}
+	return x
 }
 
 // HostileNodes exposes the hostile constants.
